@@ -125,6 +125,10 @@ func unfaithfulClass(res []*reAtom) (string, string) {
 			switch {
 			case sep:
 				c = "regex_sees_escaped_separator_bytes"
+			case goodSyntax(at.text) != "":
+				// a regex of a form the index is proved to evaluate correctly (given the
+				// library contract): no known finding explains a wrong answer here
+				return "", fmt.Sprintf("/%s/ (form %s, evaluated correctly by the unchanged code) on %q: unanchored=%v tagfilter=%v prune=%c", at.text, goodSyntax(at.text), r.val, r.spec, dm, r.prune)
 			case at.anchored:
 				c = "show_series_anchored_regex"
 			case !at.literal:
@@ -142,6 +146,70 @@ func unfaithfulClass(res []*reAtom) (string, string) {
 		}
 	}
 	return class, why
+}
+
+// goodSyntax names the syntactic form of a regex text if it is one of those on which the code is
+// right (TagFilterProps.lean: literal, match-all, ^literal, literal$, ^(alternation of two or more
+// distinct literals / a character class)$, and literal between .* / .+); "" otherwise.
+func goodSyntax(text string) string {
+	re, err := syntax.Parse(text, syntax.Perl)
+	if err != nil {
+		return ""
+	}
+	lit := func(r *syntax.Regexp) bool { return r.Op == syntax.OpLiteral && r.Flags&syntax.FoldCase == 0 && len(r.Rune) > 0 }
+	dot := func(r *syntax.Regexp) bool {
+		return (r.Op == syntax.OpStar || r.Op == syntax.OpPlus) && r.Sub[0].Op == syntax.OpAnyCharNotNL
+	}
+	var lits func(r *syntax.Regexp) int // number of distinct literals of an alternation, 0 if it is none
+	lits = func(r *syntax.Regexp) int {
+		switch r.Op {
+		case syntax.OpCapture:
+			return lits(r.Sub[0])
+		case syntax.OpAlternate:
+			seen := map[string]bool{}
+			for _, s := range r.Sub {
+				if !lit(s) {
+					return 0
+				}
+				seen[string(s.Rune)] = true
+			}
+			return len(seen)
+		case syntax.OpCharClass:
+			n := 0
+			for i := 0; i+1 < len(r.Rune); i += 2 {
+				n += int(r.Rune[i+1]-r.Rune[i]) + 1
+			}
+			if n > 20 || r.Flags&syntax.FoldCase != 0 {
+				return 0
+			}
+			return n
+		}
+		return 0
+	}
+	switch {
+	case lit(re):
+		return "literal"
+	case re.Op == syntax.OpLiteral && re.Flags&syntax.FoldCase != 0 && len(re.Rune) > 0:
+		return "fold-literal" // left to the regexp library, unanchored
+	case re.Op == syntax.OpPlus && re.Sub[0].Op == syntax.OpCharClass:
+		return "class+" // left to the regexp library, unanchored
+	case re.Op == syntax.OpStar && re.Sub[0].Op == syntax.OpAnyCharNotNL:
+		return "match-all"
+	case re.Op != syntax.OpConcat:
+		return ""
+	}
+	sub := re.Sub
+	switch {
+	case len(sub) == 2 && sub[0].Op == syntax.OpBeginText && lit(sub[1]):
+		return "^literal"
+	case len(sub) == 2 && lit(sub[0]) && sub[1].Op == syntax.OpEndText:
+		return "literal$"
+	case len(sub) == 3 && sub[0].Op == syntax.OpBeginText && sub[2].Op == syntax.OpEndText && lits(sub[1]) >= 2:
+		return "^(literals)$"
+	case len(sub) == 3 && dot(sub[0]) && lit(sub[1]) && dot(sub[2]):
+		return "dots-literal-dots"
+	}
+	return ""
 }
 
 func needsEscape(s string) bool { return strings.ContainsAny(s, ",= ") }
@@ -167,6 +235,7 @@ type runner struct {
 	ksig  map[string]string // cache key of a regex atom -> its matcher tables (KeySound check)
 	prev  []savedPred
 	marsh map[string]string // marshalled bytes -> value (injectivity of marshalTagValue over the run)
+	tfseen map[string]bool // tfinit ops already emitted in this history
 	journal  *os.File // crash replay mode: every op is written (and synced) before and after it runs
 	progress string   // worker mode: file that names the history being run
 	c    *hx.Ctx
@@ -380,6 +449,9 @@ func (rn *runner) opSearch(kind string) {
 
 func (rn *runner) searchWith(kind string, mi int, p *pnode, res []*reAtom) {
 	mst := rn.h.msts[mi]
+	for _, at := range res {
+		rn.tfinit(mst, at)
+	}
 	op := fmt.Sprintf("%s %s %s", kind, hx2(mst), predTokens(p, res))
 	var ids []uint64
 	var texts []string
@@ -762,6 +834,7 @@ func (rn *runner) withEnv(tag string, body func()) {
 	rn.reop, rn.dead = false, false
 	rn.prev = nil
 	rn.ksig = map[string]string{}
+	rn.tfseen = map[string]bool{}
 	if rn.marsh == nil {
 		rn.marsh = map[string]string{}
 	}
